@@ -140,7 +140,12 @@ def notCovered : List Loc :=
   [("Rels", "list"), ("File", "sharedStringItem"), ("File", "sharedStringTemp"),
    ("Ws", "MergeCells")]
 
-def allowedUnguarded : List Loc := preloaded ++ readOnly ++ notCovered
+/-- the worksheet cache `File.Sheet` (a `sync.Map`): only the FIRST load of a call matters
+(later `workSheetReader` calls of the same API call hit the cache), see
+`worksheet_first_load_locked` -/
+def firstLoadOnly : List Loc := [("File", "sheetCache")]
+
+def allowedUnguarded : List Loc := preloaded ++ readOnly ++ notCovered ++ firstLoadOnly
 
 /-- **guarded_by_table**: in every API function every access to a shared
 location outside `allowedUnguarded` is made while the mutex of the object it
@@ -230,6 +235,32 @@ theorem covered_locations :
      ("File", "CalcChain"), ("CalcChain", "C"), ("ContentTypes", "list"), ("Drawing", "anchors"),
      ("File", "mediaParts"), ("File", "drawingParts")].all
       (fun x => !allowedUnguarded.contains x) = true := by decide
+
+/-- was `File.mu` held at the first access of the trace to location `x`? (`true` if none) -/
+def firstAccessUnder (g : String) (x : Loc) : List String → List Act → Bool
+  | _, [] => true
+  | h, .acq l :: r => firstAccessUnder g x (l :: h) r
+  | h, .rel l :: r => firstAccessUnder g x (h.erase l) r
+  | h, .rd y :: r => if y = x then h.contains g else firstAccessUnder g x h r
+  | h, .wr y :: r => if y = x then h.contains g else firstAccessUnder g x h r
+
+/-- **worksheet_first_load_locked** (modelled `sync.Map` idiom "load or decode-and-store"):
+every documented function that goes through `workSheetReader` performs its first load of the
+worksheet cache while holding `File.mu`, so two goroutines can not both decode an uncached
+worksheet and lose the updates made through one of the copies (the defect repaired in
+`SetColVisible`, `AddDataValidation`, `DeleteDataValidation`, `setCellTimeFunc`). `Rows` and
+`Cols` only `Load` the cache and are not concerned. -/
+theorem worksheet_first_load_locked :
+    api.all (fun f => firstAccessUnder "File" ("File", "sheetCache") [] (Impl.trace f)) = true := by
+  decide +kernel
+
+/-- **one_worksheet_per_call** (lock *instances*): every followed function that loads a
+worksheet loads the one named by its own `sheet` parameter — so within one API call the
+class-level lock `Ws` and the locations `Ws.*` denote ONE worksheet instance, and workbook-wide
+state (`File.*`, part lists, style tables, shared strings) is never guarded by a worksheet
+mutex in `guardOfClass`: accesses to it under a worksheet mutex only are reported unguarded. -/
+theorem one_worksheet_per_call :
+    wsArgs.all (fun p => p.2.all (fun a => a == "sheet")) = true := by decide
 
 /-- **finding_spill_index_unguarded** (*no data race* clause fails for workbooks opened with
 a small `UnzipXMLSizeLimit`): `getFromStringItem` builds and reads the index of the spilled
